@@ -101,6 +101,10 @@ def tlaps_chain(work, rep):
         rep.notes.append("tlapm did not prove all obligations of ChainProof.tla: " + out[-400:])
 
 
+# how many runs of each plan are repeated with an upgrade over a released database in the middle (quick tier; x4 in the thorough tier)
+MIGRATE = {"C01": 150, "C02": 60, "C03": 60, "C04": 40, "C08": 60, "C09": 200, "C12": 40, "C16": 40, "C20": 40}
+
+
 def make_check(prop, plans_of, rule, nontrivial, level="model_checking", assumptions=(), post=None, pre=None, post_all=None):
     def check(work, tier, seed, replay):
         if replay:
@@ -145,25 +149,39 @@ def make_check(prop, plans_of, rule, nontrivial, level="model_checking", assumpt
                     runs += probe_runs(c, run["steps"], final, "wp", cnt)
             if pl.extra_runs:
                 runs += pl.extra_runs(c, g, rng)
-            trace, runs_path = execute(work, rep, c, runs, list(pl.stores), list(pl.embeds), seed, http=pl.http, keyof=pl.keyof, tag=tagname(pl.name))
-            events = index_trace(trace)
-            fails = judge_chunks(work, rep, c, trace, events)
-            count_events(rep, events, nontrivial)
-            settle(rep, prop, fails, events, c)
-            if post:
-                post(rep, pl, events)
-            npick = 0
-            for e in events:
-                if nontrivial(e):
-                    rep.sample(e)
-                    npick += 1
-                    if npick >= 2:
-                        break
-            rep.cov.setdefault("plans", []).append({"plan": pl.name, "runs": len(runs), "events": len(events), "stores": list(pl.stores),
-                                                    "embeddings": list(pl.embeds), "http": pl.http})
-            if hasattr(events, "close"):
-                events.close()
-            os.remove(trace)
+            # upgrade over existing data: a sample of the same runs on file-backed SQLite, with the file replaced half-way by one written the way
+            # the release under verification writes it (pinned schema and parameter binding) and the witness restarted on it
+            nmig = MIGRATE.get(prop, 0) if tier == "quick" else 4 * MIGRATE.get(prop, 0)
+            passes = [(runs, list(pl.stores), list(pl.embeds), tagname(pl.name), pl.name)]
+            if nmig:
+                mig = []
+                for r_ in rng.sample(runs, min(len(runs), nmig)):
+                    st_ = r_["steps"]
+                    if len(st_) >= 2:
+                        pos = rng.randrange(1, len(st_))
+                        mig.append({"id": r_["id"] + "-mig", "steps": st_[:pos] + [{"op": "migrate"}] + st_[pos:]})
+                if mig:
+                    passes.append((mig, ["sqlfile"], ["id"], tagname(pl.name) + "mig", pl.name + " + upgrade over a released database"))
+            for runs_, stores_, embeds_, tag_, pname_ in passes:
+                trace, runs_path = execute(work, rep, c, runs_, stores_, embeds_, seed, http=pl.http, keyof=pl.keyof, tag=tag_)
+                events = index_trace(trace)
+                fails = judge_chunks(work, rep, c, trace, events)
+                count_events(rep, events, nontrivial)
+                settle(rep, prop, fails, events, c)
+                if post:
+                    post(rep, pl, events)
+                npick = 0
+                for e in events:
+                    if nontrivial(e):
+                        rep.sample(e)
+                        npick += 1
+                        if npick >= 2:
+                            break
+                rep.cov.setdefault("plans", []).append({"plan": pname_, "runs": len(runs_), "events": len(events), "stores": stores_,
+                                                        "embeddings": embeds_, "http": pl.http})
+                if hasattr(events, "close"):
+                    events.close()
+                os.remove(trace)
         finish_counts(rep)
         if post_all:
             post_all(work, rep, tier, seed)
@@ -503,6 +521,34 @@ def c20_faults(work, rep, tier, seed):
     ups = [e for e in evs if e.get("e") == "update"]
     rep.cov["evaluations"] += len(ups)
     rep.cov["updates_under_storage_failures"] = sum(1 for e in ups if e.get("fired"))
+    c20_production_metrics(work, rep, tier, seed)
+
+
+def c20_production_metrics(work, rep, tier, seed):
+    """The counters an operator actually sees: the production binary with its Prometheus factory (--metrics_listen), scraped after every run of
+    sequential and concurrent clients; Trace_Hist counts the responses and requires the scraped values to be exactly those."""
+    import checks_ops, opsfam
+    rng = random.Random(seed + 20)
+    binp = build_prod_binary()
+    shapes = [(24, 1, 14), (16, 3, 8)] if tier == "quick" else [(150, 1, 16), (150, 3, 10), (40, 6, 8)]
+    n = 0
+    for nruns, ng, nops in shapes:
+        runs = [{"id": "m%dx%d-%d" % (ng, nops, j), "mode": "free", "db0": opsfam.db0_of("none"), "prog": checks_ops.rich_programs(rng, ng, nops), "sched": []} for j in range(nruns)]
+        rp, tp = work.path("metrics-%d.jsonl" % ng), work.path("metrics-%d.ndjson" % ng)
+        write_runs(rp, opsfam.OPS_PARAMS, runs)
+        o, dt = run_driver(["prod-conc", "-bin", binp, "-in", rp, "-out", tp, "-store", "sqlfile", "-seed", str(seed), "-dir", work.sub("db"), "-metrics"])
+        rep.notes.append("metrics/" + o.strip())
+        events = read_ndjson(tp)
+        fails = opsfam.hist_judge(work, rep, tp, 6, name="hist-metrics-%d" % ng)
+        settle(rep, "C20", fails, events, dict(opsfam.OPS_BASE), extra_replay={"kind": "production binary /metrics"})
+        n += len(runs)
+        rets = [e for e in events if e.get("e") == "ret" and e.get("v") != "Read"]
+        rep.cov["evaluations"] += len(rets)
+        hist = rep.cov.setdefault("verdicts_counted_on_the_metrics_endpoint", {})
+        for e in rets:
+            hist[e["v"]] = hist.get(e["v"], 0) + 1
+    rep.cov["production_binary_runs_scraped"] = n
+    rep.cov["traces_validated_against_impl"] += n
 
 # ----------------------------------------------------------------------------- C16
 
@@ -532,17 +578,44 @@ def odd_runs(c, g, rng):
     return runs
 
 
+def racy_read_runs(c, g=None, rng=None):
+    """A read whose return from storage is held back while an update is accepted and further reads arrive: whatever the read path keeps between
+    requests (a cache filled on a miss, coalesced in-flight reads) shows when a read that STARTED after the accepted update does not see it."""
+    nw = c["NWitKeys"]
+    runs = []
+    grow12 = {"op": "update", "log": "l1", "req": {"auth": "good", "old": 1, "b": 0, "n": 2, "extra": 0, "stale": 0, "ext": 0, "pf": {"k": "right", "b": 0, "m": 1, "n": 2}}}
+    grow23 = {"op": "update", "log": "l1", "req": {"auth": "good", "old": 2, "b": 0, "n": 3, "extra": 0, "stale": 0, "ext": 0, "pf": {"k": "right", "b": 0, "m": 2, "n": 3}}}
+    tofu1 = {"op": "update", "log": "l1", "req": {"auth": "good", "old": 0, "b": 0, "n": 1, "extra": 0, "stale": 0, "ext": 0, "pf": {"k": "empty"}}}
+    held = {"op": "bgget", "log": "l1", "hold": "ReadGetLatest>"}
+    plain = {"op": "bgget", "log": "l1"}
+    get = {"op": "get", "log": "l1"}
+    rel = {"op": "release"}
+    ms = c["MaxSize"]
+    # refused updates that get as far as the storage (whatever the read path keeps per log may be dropped by ANY update, not only an accepted one)
+    stale1 = {"op": "update", "log": "l1", "req": {"auth": "good", "old": 0, "b": 0, "n": 1, "extra": 0, "stale": 0, "ext": 0, "pf": {"k": "empty"}}}
+    stale2 = {"op": "update", "log": "l1", "req": {"auth": "good", "old": 0, "b": 0, "n": 2, "extra": 0, "stale": 0, "ext": 0, "pf": {"k": "empty"}}}
+    runs.append({"id": "racy-first", "steps": [held, tofu1, plain, rel, get, {"op": "getlogs"}] + ([grow12, get] if ms >= 2 else [])})
+    if ms >= 2:
+        for tagx, pre in (("", []), ("-after-read", [get]), ("-after-refusal", [stale1]), ("-after-read-and-refusal", [get, stale1])):
+            runs.append({"id": "racy-grow" + tagx, "steps": [tofu1] + pre + [held, grow12, plain, rel, get, {"op": "getlogs"}] + ([grow23, get] if ms >= 3 else [])})
+        runs.append({"id": "racy-late-release", "steps": [tofu1, stale1, held, grow12, get, plain, rel, get, get]})
+    if ms >= 3:
+        runs.append({"id": "racy-two", "steps": [tofu1, held, grow12, plain, plain, rel, get, stale2, held, grow23, plain, rel, get]})
+    return runs
+
+
 def c16_plans(tier):
     if tier == "quick":
-        return [Plan("MC_Witness(hist)", H(tier, BadKinds={"random", "flip"}), nwalks=150, depth=20, reads=True, http=True, stores=Q_ST, embeds=("id",), want=want_accept),
+        return [Plan("MC_Witness(hist)", H(tier, BadKinds={"random", "flip"}), nwalks=150, depth=20, reads=True, http=True, stores=Q_ST, embeds=("id",), want=want_accept,
+                     extra_runs=lambda c, g, rng: racy_read_runs(c)),
                 Plan("MC_Witness2(shared key)", W2(tier), keyof=KEYOF, edges=False, nwalks=100, depth=20, reads=True, http=True, stores=("inmem", "sqlfile"), embeds=("id",),
-                     extra_runs=odd_runs, want=want_accept),
+                     extra_runs=lambda c, g, rng: odd_runs(c, g, rng) + racy_read_runs(c), want=want_accept),
                 # note shapes up to the signature-line limit: a first submission that is refused AFTER the storage was opened must leave no entry
                 Plan("MC_Witness(pad)", PAD(tier, 2, Stales={0}, Exts={0}), nwalks=40, depth=8, reads=True, http=True, stores=("inmem", "sqlfile"), embeds=("id",), want=want_accept)]
     return [Plan("MC_Witness(pad)", PAD(tier, 2), nwalks=200, depth=10, reads=True, http=True, stores=T_ST, embeds=("id",), want=want_accept),
-            Plan("MC_Witness(hist)", H(tier), nwalks=1500, depth=40, reads=True, http=True, stores=T_ST, embeds=("id", "mixed"), want=want_accept),
+            Plan("MC_Witness(hist)", H(tier), nwalks=1500, depth=40, reads=True, http=True, stores=T_ST, embeds=("id", "mixed"), want=want_accept, extra_runs=lambda c, g, rng: racy_read_runs(c)),
             Plan("MC_Witness2(3 logs)", W2(tier), keyof=KEYOF, edges=True, nwalks=1000, depth=30, reads=True, http=True, stores=T_ST, embeds=("id",),
-                 extra_runs=odd_runs, want=want_accept)]
+                 extra_runs=lambda c, g, rng: odd_runs(c, g, rng) + racy_read_runs(c), want=want_accept)]
 
 
 CHECKS["C16"] = make_check("C16", c16_plans,
